@@ -281,3 +281,50 @@ Theorem C07_registry_sound : forall l : list rentry, forallb classified l = true
   List.Forall (fun e => exists k, classify e = Some k /\ kind_ok k) l.
 Proof. exact registry_sound. Qed.
 Print Assumptions C07_registry_sound.
+
+(* ToCartesian: partial derivatives, determinant, |det| = exp (reported + ln sc) *)
+Theorem C07_to_cartesian_jacobian : forall a b sc sgn x r, a < b ->
+  let th := fun t => sgn * ((t - a) / (b - a)) * sc in
+  let k := sgn * sc / (b - a) in
+  is_derive (fun t => r * cos (th t)) x (- k * r * sin (th x)) /\
+  is_derive (fun q => q * cos (th x)) r (cos (th x)) /\
+  is_derive (fun t => r * sin (th t)) x (k * r * cos (th x)) /\
+  is_derive (fun q => q * sin (th x)) r (sin (th x)) /\
+  (- k * r * sin (th x)) * sin (th x) - cos (th x) * (k * r * cos (th x)) = - (k * r).
+Proof. exact to_cartesian_jacobian. Qed.
+Print Assumptions C07_to_cartesian_jacobian.
+
+Theorem C07_to_cartesian_logdet : forall a b sc sgn r, a < b -> 0 < sc -> (sgn = 1 \/ sgn = -1) -> 0 < r ->
+  Rabs (- (sgn * sc / (b - a) * r)) = exp ((- ln (b - a) + ln r) + ln sc).
+Proof. exact to_cartesian_logdet. Qed.
+Print Assumptions C07_to_cartesian_logdet.
+
+(* the log-Jacobian expressions evaluated by the tie for the 2-d / 3-d blocks are the quantities of the
+   determinant theorems (for the 1-d pipelines this is C07_rtb_denotes) *)
+Theorem C07_angle_pair_lj_denotes : forall a v r aux,
+  evalR [a; v; r; aux] (Rnd (Add (Rnd (Mul c2 (Rnd (Ln (V 2))))) (Rnd (Ln (Rnd (Sin (V 1))))))) = 2 * ln r + ln (sin v) /\
+  evalR [a; v; r; aux] (Rnd (Add (Rnd (Mul c2 (Rnd (Ln (V 2))))) (Rnd (Ln (Rnd (Cos (V 1))))))) = 2 * ln r + ln (cos v).
+Proof. exact angle_pair_lj_den. Qed.
+Print Assumptions C07_angle_pair_lj_denotes.
+
+Theorem C07_to_cartesian_lj_denotes : forall x r sgn a b sc,
+  evalR [x; r; sgn; a; b; sc] (Rnd (Add (Rnd (Neg (Rnd (Ln (Rnd (Sub (V 4) (V 3))))))) (Rnd (Ln (V 1))))) = - ln (b - a) + ln r.
+Proof. exact to_cartesian_lj_den. Qed.
+Print Assumptions C07_to_cartesian_lj_denotes.
+
+(* reported log_j minus the enclosure of the true value, at two points: separated intervals prove that the
+   difference is not one constant *)
+Theorem C07_offs_sound : forall m e E D v,
+  offs (Some (m, e)) E = Some D -> enclR E v -> enclR D (dyR (m, e) - v).
+Proof. exact offs_sound. Qed.
+Print Assumptions C07_offs_sound.
+
+Theorem C07_separated_sound : forall Dj Dk dj dk,
+  separated Dj Dk = true -> enclR Dj dj -> enclR Dk dk -> dj < dk.
+Proof. exact separated_sound. Qed.
+Print Assumptions C07_separated_sound.
+
+Theorem C07_scale_shift_denotes : forall x0 s t tl,
+  stage_den (x0 :: s :: t :: tl) (st_scale_shift (P 0) (P 1) true) (cm_scale_shift s t).
+Proof. exact den_scale_shift. Qed.
+Print Assumptions C07_scale_shift_denotes.
